@@ -158,6 +158,11 @@ func scenario(x *explore.X, maxConns, depth int, direct, sameSource bool) {
 		}
 	}
 	opts := world.Options{TransportCAPEM: s.pki.CAPEM, ShutdownTimeout: shutdownTO, ProxyProtocol: sameSource}
+	// (round 9) the listener has bandwidth limits (far above anything these exchanges need): its connections are wrapped
+	// by the rate-limiting listener, whose life cycle (closed when shutdown begins) must not touch exchanges in flight
+	if x.Choose("listener-has-bandwidth-limits", 2) == 1 {
+		opts.ReadLimit, opts.WriteLimit = 1<<30, 1<<30
+	}
 	if needMITM {
 		opts.MITMDomains = []string{`^ok\.test$`}
 	}
